@@ -19,6 +19,10 @@ import (
 
 type finSet [256]bool
 
+// finConstBusy: functions whose constant result is being determined (guards
+// against wrappers that return each other's result).
+var finConstBusy = map[*ssa.Function]bool{}
+
 func (s finSet) empty() bool {
 	for _, b := range s {
 		if b {
@@ -93,7 +97,9 @@ func finExpr(v ssa.Value, prm ssa.Value, x int64, taken map[*ssa.BasicBlock]int,
 			}
 		}
 		// a method that returns the same constant on every path (Size() of a fixed-size structure)
-		if f := e.Common().StaticCallee(); f != nil && len(f.Blocks) > 0 && f.Signature.Results().Len() == 1 {
+		if f := e.Common().StaticCallee(); f != nil && len(f.Blocks) > 0 && f.Signature.Results().Len() == 1 && !finConstBusy[f] && depth < 6 {
+			finConstBusy[f] = true
+			defer delete(finConstBusy, f)
 			val, has := int64(0), false
 			for _, r := range returnsOf(f) {
 				k, ok := constInt(r.Results[0])
